@@ -23,3 +23,44 @@ func (s *Surface) WriteCell(col uint16, row uint16, cell vaxis.Cell)
                       ==> s.Buffer[i] == old(s.Buffer[i])
   modifies elems(s.Buffer)
 @*/
+
+/*@
+-- ctx.Characters is supplied by the framework (vaxis.Characters): a pure function
+purefield DrawContext.Characters
+
+-- ------------------------------------------------------------------ the layout contract (C14)
+-- "Every built-in widget, for every drawing constraint, returns a surface no larger than the maximum it
+--  was given": the interface contract; every implementation below is verified against the same clauses.
+func (w Widget) Draw(ctx DrawContext) (Surface, error)
+  ensures C14_max: result1 == nil ==> (result0.Size.Width <= ctx.Max.Width && result0.Size.Height <= ctx.Max.Height)
+  ensures C14_buf: result1 == nil ==> len(result0.Buffer) == int(result0.Size.Width) * int(result0.Size.Height)
+
+func (s *Surface) AddChild(col int, row int, child Surface)
+  ensures C14_child: len(s.Children) == old(len(s.Children)) + 1
+                  && s.Children[len(s.Children)-1].Origin.Col == col && s.Children[len(s.Children)-1].Origin.Row == row
+                  && s.Children[len(s.Children)-1].Surface.Size == child.Size
+  ensures C14_keep:  s.Size == old(s.Size) && s.Buffer == old(s.Buffer)
+  modifies s.Children, elems(s.Children)
+
+func (s *Surface) Fill(style vaxis.Style)
+  ensures C14_keep: s.Size == old(s.Size) && len(s.Buffer) == old(len(s.Buffer))
+  loop 1 invariant keep: s.Size == old(s.Size) && len(s.Buffer) == old(len(s.Buffer))
+
+-- render paints buffer cell i at (i mod W, i div W) of the target window (exact addressing for every size),
+-- children through win.New at their offset (clipped by C11).
+rec TreeWF(s Surface) bool =
+     len(s.Buffer) == int(s.Size.Width) * int(s.Size.Height)
+  && (forall c in 0..len(s.Children): TreeWF(s.Children[c].Surface))
+
+func (s Surface) render(win vaxis.Window, focused Widget)
+  unfold TreeWF, chainOK
+  requires win: WinOK(win)
+  requires tree: TreeWF(s)
+  loop 1 assert C14_addr: col == i % int(s.Size.Width) && row == i / int(s.Size.Width)
+  loop 1 invariant ok: WinOK(win) && -1 <= rangeindex
+  loop 2 invariant ok: WinOK(win) && -1 <= rangeindex && TreeWF(s)
+
+func (ss *SubSurface) containsPoint(col int, row int) bool
+  ensures C14_hit: result <==> (ss.Origin.Col <= col && col < ss.Origin.Col + int(ss.Surface.Size.Width)
+                              && ss.Origin.Row <= row && row < ss.Origin.Row + int(ss.Surface.Size.Height))
+@*/
